@@ -17,7 +17,29 @@ pub fn run(sc: &Value) -> Value {
     let has_prior_files = sc["prior_files"].is_array();
     make_tree(&src, if has_prior_files { &sc["prior_files"] } else { &sc["files"] });
     let mut before = snapshot(&src);
-    let opts = options(sc);
+    let mut opts = options(sc);
+    // a source file that changes between the directory listing and its read: when the entry `when_reported` is reported
+    // through the change callback, `path` is truncated to `to` bytes, or replaced by a directory (its read then fails)
+    if sc["source_event"].is_object() {
+        let ev = sc["source_event"].clone();
+        let root = src.clone();
+        opts.change_callback = Some(Box::new(move |change: &EntryChange| {
+            if change.apath.to_string() == ev["when_reported"].as_str().unwrap_or("") {
+                let target = root.join(ev["path"].as_str().unwrap().trim_start_matches('/'));
+                match ev["what"].as_str().unwrap_or("") {
+                    "truncate" => {
+                        let f = std::fs::OpenOptions::new().write(true).open(&target).unwrap();
+                        f.set_len(ev["to"].as_u64().unwrap_or(0)).unwrap();
+                    }
+                    _ => {
+                        std::fs::remove_file(&target).unwrap();
+                        std::fs::create_dir(&target).unwrap();
+                    }
+                }
+            }
+            Ok(())
+        }));
+    }
     let log = Arc::new(Mutex::new(Vec::new()));
     let (fire, what) = fire_of(sc);
     let follow_up = sc["follow_up"].as_bool().unwrap_or(false);
